@@ -101,6 +101,35 @@ theorem thorough_header_lookups {α : Type} (h : HeaderReads.HFile) (il : Nat) (
   simp only [WriteOrder.hashRegion, Bool.and_eq_false_iff, decide_eq_false_iff_not]
   right; omega
 
+/-- … and so is a header look-up by a fresh reader on an unstructured file (irregular 3D, 2D line), which loads whole footer
+arrays -/
+theorem thorough_header_lookups_unstructured {α : Type} (h : HeaderReads.HFile) (il t : Nat)
+    (hs : h.structured = false) (hsto : HeaderReads.hasStored h = true) (o : HeaderReads.HOut)
+    (hok : (HeaderReads.genTraceHeader h il HeaderReads.HSt.init t false).2 = .ok o)
+    (D : Nat) (hD : D ≤ h.footer) (h980 : 980 ≤ h.footer) (hlen : 0 < h.len) (k : List (List Nat) → α) :
+    WriteOrder.NeedsBeyond D (WriteOrder.fetchAll o.fetches k)
+      ∧ Insensitive WriteOrder.hashRegion (WriteOrder.fetchAll o.fetches k) := by
+  obtain ⟨hne, hall⟩ := WriteOrder.unstructured_header_fetches h il t hs hsto o hok
+  constructor
+  · apply WriteOrder.fetchAll_needsBeyond
+    cases hf : o.fetches with
+    | nil => exact absurd hf hne
+    | cons f rest =>
+      obtain ⟨x, hx⟩ := hall f (by rw [hf]; exact List.mem_cons_self)
+      refine ⟨f, List.mem_cons_self, ?_⟩
+      rw [hx]; simp only [HeaderReads.offsetOf]
+      generalize x * h.stride = m
+      omega
+  · apply WriteOrder.fetchAll_insensitive
+    intro g hg i _
+    obtain ⟨x, hx⟩ := hall g hg
+    subst hx
+    simp only [WriteOrder.hashRegion, HeaderReads.offsetOf, Bool.and_eq_false_iff, decide_eq_false_iff_not]
+    right
+    apply decide_eq_false
+    have : h.footer ≤ h.footer + x * h.stride := Nat.le_add_right _ _
+    omega
+
 example : WriteOrder.shape true 2 3 = [.A, .A, .A, .P 64, .P 980, .A, .A, .A, .P 960] := by decide
 
 end Sgz.Props.C18
